@@ -667,6 +667,24 @@ def comp_ufunc(prop, tier, comp, work):
     return out
 
 
+def comp_ufwd_reduce(prop, tier, comp, work):
+    """R-UFWD restricted to the reduce_X / accumulate_X / outer_X overload families of view/ufuncs (C08): every overload hands its
+    own parameters on, in order, to the fuller overload of itself or to reduce/accumulate/outer with the op type of its own name;
+    defaulted trailing arguments are constants, never a parameter dropped or replaced"""
+    t0 = time.time()
+    tu, n = gen_umbrella(["nmtools/array/view/ufuncs"], work, "umb_uf_red.cpp")
+    rows, err, cmd = run_nmlint(tu, filters=["include/nmtools/array/view/ufuncs/"])
+    out = dict(broken=[], units=n, functions=len(rows), cmd=cmd)
+    if err:
+        out["broken"].append(err); return out
+    rows = [r for r in rows if "fn" in r and re.fullmatch(r"nmtools::view::(reduce_|accumulate_|outer_)\w+", r["fn"])]
+    f, k, samples = rule_ufwd(rows, prop)
+    for x in f:
+        x["rule"] = "R-UFWD.reduce"
+    out.update(findings=f, instances={"R-UFWD.reduce": k}, evaluations=k, distinct_nontrivial=k - len(f), samples=samples, wall_s=round(time.time() - t0, 2))
+    return out
+
+
 # --------------------------------------------------------------------------------------------
 # R-KSIB (C13): sibling kernel entry points (CUDA, HIP) rebuild the output from (pointer, shape, dim),
 # re-apply the function to the operands and call the shared guarded body assign_result with
@@ -2080,6 +2098,53 @@ def comp_axisnorm_simd(prop, tier, comp, work):
     return out
 
 
+RED_CALLEES = {"sum", "prod", "mean", "var", "stddev", "cumsum", "cumprod", "reduce", "accumulate", "outer", "vector_norm"}
+
+def comp_paramuse(prop, tier, comp, work):
+    """R-PARAMUSE: a named parameter of a view-level function is used somewhere in its body (or in a lambda defined in it).
+    A parameter that is accepted and then never read is an argument silently dropped (dtype / initial / keepdims / axis not
+    handed on to the view it composes). Scope: the functions in the property's anchor files; for C08 additionally every
+    view function that composes a reduction (calls sum / prod / mean / var / stddev / cumsum / cumprod / reduce* / accumulate* / vector_norm)."""
+    t0 = time.time()
+    tu, nn = gen_umbrella(["nmtools/array/view", "nmtools/array/index"], work, "umb_pu.cpp")
+    rows, err, cmd = run_nmlint(tu, filters=["include/nmtools/array/view/", "include/nmtools/array/index/"])
+    out = dict(broken=[], units=nn, functions=len(rows), cmd=cmd)
+    if err:
+        out["broken"].append(err); return out
+    tbl = load_table("paramuse_tables.json")
+    anchors = anchor_files(prop)
+    fns = [r for r in rows if "fn" in r]
+    findings, n, samples = [], 0, []
+    for r in fns:
+        if r.get("lambda") or not re.fullmatch(r"nmtools::(view|index)::\w+", r["fn"]):
+            continue
+        rf = relfile(r["file"])
+        in_anchor = any(rf == a or (a.endswith("/") and rf.startswith(a)) for a in anchors)
+        composes_red = prop == "C08" and r["fn"].startswith("nmtools::view::") and any(
+            f["k"] == "call" and (re.sub(r"<.*$", "", f["a"]).split("::")[-1] in RED_CALLEES or re.match(r"(reduce|accumulate)_", re.sub(r"<.*$", "", f["a"]).split("::")[-1])) for f in r["facts"])
+        if not (in_anchor or composes_red):
+            continue
+        params = [p_["name"] for p_ in r["params"] if p_["name"]]
+        if not params:
+            continue
+        txt = " ".join((f.get("a", "") + " " + str(f.get("b", "")) + " " + str(f.get("c", ""))) for f in r["facts"])
+        for q in fns:
+            if q.get("lambda") and q["file"] == r["file"] and q["fn"].startswith(r["fn"] + "::("):
+                txt += " " + " ".join((f.get("a", "") + " " + str(f.get("b", ""))) for f in q["facts"])
+        for pn in params:
+            n += 1
+            if re.search(r"\$" + re.escape(pn) + r"\b", txt):
+                continue
+            key = "%s:%s:%s" % (rf, r["fn"].split("::")[-1], pn)
+            if key in tbl["unused_ok"]:
+                continue
+            findings.append(finding("R-PARAMUSE", prop, r, "parameter " + pn, "parameter '%s' of %s is accepted and never read: the argument is silently dropped instead of being handed on" % (pn, r["fn"])))
+        if len(samples) < 2:
+            samples.append("R-PARAMUSE %s(%s)" % (r["fn"], ",".join(params)))
+    out.update(findings=findings, instances={"R-PARAMUSE": n}, evaluations=n, distinct_nontrivial=n - len(findings), samples=samples, wall_s=round(time.time() - t0, 2))
+    return out
+
+
 # --------------------------------------------------------------------------------------------
 # driver
 # --------------------------------------------------------------------------------------------
@@ -2120,4 +2185,4 @@ def comp_fwd_array(prop, tier, comp, work):
     return out
 
 
-RULES = {"R-FWD.array": comp_fwd_array, "R-FWD.functional": comp_fwd_functional, "R-UFUNC": comp_ufunc, "R-KSIB": comp_ksib, "R-SIMD": comp_simd, "R-CONSTBRANCH": comp_constbranch, "R-TRAITPROV": comp_traitprov, "R-MAYBE-DIV": comp_maybe_div, "R-OWN": comp_own, "R-EVAL": comp_eval, "R-EQSHAPE": comp_eqshape, "R-PAIR": comp_pair, "R-FOLD": comp_fold, "R-MEMCOPY": comp_memcopy, "R-AXISNORM": comp_axisnorm, "R-AXISNORM.simd": comp_axisnorm_simd}
+RULES = {"R-FWD.array": comp_fwd_array, "R-FWD.functional": comp_fwd_functional, "R-UFUNC": comp_ufunc, "R-KSIB": comp_ksib, "R-SIMD": comp_simd, "R-CONSTBRANCH": comp_constbranch, "R-TRAITPROV": comp_traitprov, "R-MAYBE-DIV": comp_maybe_div, "R-OWN": comp_own, "R-EVAL": comp_eval, "R-EQSHAPE": comp_eqshape, "R-PAIR": comp_pair, "R-FOLD": comp_fold, "R-MEMCOPY": comp_memcopy, "R-AXISNORM": comp_axisnorm, "R-AXISNORM.simd": comp_axisnorm_simd, "R-UFWD.reduce": comp_ufwd_reduce, "R-PARAMUSE": comp_paramuse}
